@@ -1495,7 +1495,74 @@ class C13:
             fl = [l for l in fl if l in used] or fl
             if fl and m.defs:
                 ops.append(("genfun", (rm.choice(fl),), (rm.choice([1e200, -1e200, 1e155, 1.7e308, -1e308, 1e-320, 2.0 ** 600]),), "extreme"))
+        elif rm.random() < 0.3 and not cfg["nplit"]:
+            # last call of the history: the definitions are taken out (unregister), a leaf is assigned, the same task
+            # objects are registered again (register() does not evaluate, as load() does not): the dependants of that
+            # leaf are now out of date.  The setter is then called with the very object the leaf holds - "any argument
+            # values" - and must bring them up to date exactly as the assignment through the manager does.
+            m = hg.model
+            used = set()
+            for a in m.defs.values():
+                used.update(m.static_reads_of_ast(a))
+            fl = [l for l in spec.leaves if not m.is_derived(l) and l in used]
+            if fl and m.defs:
+                q = rm.choice(fl)
+                ops.append(("genfun", (q,), (gen_value(rm, spec.leaf_type[q]),), "stale"))
         return {"cfg": cfg, "spec": spec.to_json(), "ops": ops}
+
+    @staticmethod
+    def _stale_tail(ex, S, T, spec, q, newval, where):
+        """see generate(): both executions go through the same unregister / assign / register sequence, then the subject
+        calls the generated setter and the twin assigns through the manager, each with the object its leaf holds"""
+        prop = "C13"
+        xd = ex.xd
+        m2 = ex.model.clone()
+        try:
+            info = model_step(m2, ("setv", q, newval, "mgr"), True)
+        except ModelReject:
+            ex.count("skipped")
+            return False
+        if any(isinstance(v, float) and v != v for v in info.values.values()):
+            ex.count("skipped_zero_division_proviso")
+            return False
+        for W in (S, T):
+            mgr = W.mgr
+            tasks = [(tid, t) for tid, t in mgr.tasks.items() if isinstance(t, xd.tasks.ExprTask)]
+            def seq():
+                for tid, t in tasks:
+                    mgr.unregister(tid)
+                mgr.set_value(W.ref(q), newval)
+                for tid, t in tasks:
+                    mgr.register(t)
+            tr, exc = run_traced(seq)
+            if isinstance(exc, SimStall):
+                raise exc
+            if exc is not None:
+                raise Violation(prop + ".exception", "%s: unregister / assign / register raised %s: %s" % (where, type(exc).__name__, exc))
+        f = S.mgr.gen_fun("fnstale", x0=S.ref(q))
+        held_s, held_t = S.contents()[q], T.contents()[q]
+        tr, e1 = run_traced(lambda: f(held_s))
+        tr, e2 = run_traced(lambda: T.mgr.set_value(T.ref(q), held_t))
+        for e in (e1, e2):
+            if isinstance(e, SimStall):
+                raise e
+        ex.count("gen_fun_calls_on_out_of_date_dependants")
+        if isinstance(e1, ZeroDivisionError) or isinstance(e2, ZeroDivisionError):
+            ex.count("stopped_on_zero_division_proviso")
+            return True
+        if e1 is not None:
+            raise Violation(prop + ".call_raises", "%s: calling the generated function raised %s: %s" % (where, type(e1).__name__, e1))
+        if e2 is not None:
+            raise Violation(prop + ".twin_raises", "%s: assigning through the manager raised %s" % (where, e2))
+        c1, c2 = S.contents(), T.contents()
+        for loc in spec.leaves:
+            if not same(plain(c1[loc]), plain(c2[loc])):
+                raise Violation(prop + ".differs", "%s: %s holds %r after the generated function, %r after assigning through the manager"
+                                % (where, path_str(loc), c1[loc], c2[loc]))
+            if not same(plain(c1[loc]), plain(info.values[loc])):
+                raise Violation(prop + ".model", "%s: %s holds %r, the definitions give %r" % (where, path_str(loc), c1[loc], info.values[loc]))
+        ex.model.adopt(m2)
+        return True
 
     @staticmethod
     def _assign_op(p, v):
@@ -1539,6 +1606,12 @@ class C13:
                     ex.count("skipped")
                     continue
                 where = "gen_fun call %d before op %d, arguments %s" % (calls, i, ", ".join(path_str(p) for p in args))
+                if len(op) > 3 and op[3] == "stale":
+                    where = "gen_fun call on out-of-date dependants (definitions unregistered, %s = %r assigned, the same tasks registered again, " \
+                            "setter called with the object the location holds)" % (path_str(args[0]), vals[0])
+                    if C13._stale_tail(ex, S, T, spec, args[0], vals[0], where):
+                        calls += 1
+                    break
                 # ---- model: sequential assignments ------------------------------------------------
                 m2 = ex.model.clone()
                 trig_all = set()
